@@ -183,7 +183,7 @@ def run(p, led, tier):
 
     # ---------------- transfer_to: both stores symbolic; a transfer never creates energy
     tr = p.find_method(store, "transfer_to")
-    for energy in energies:
+    for energy, listener in [(e_, l_) for e_ in energies for l_ in (False, True)]:
         problems = {r: [] for r in ("C04-R1", "C04-R2", "C04-R3", "C04-R4", "C04-R5")}
         npaths = [0]
 
@@ -201,11 +201,22 @@ def run(p, led, tier):
             it.assume(ps["max_debt"].add(ps["debt0"], -1))
             amount = Lin.sym("amount")
             it.assume(amount)
+            if listener:
+                # both stores have a state-change listener that returns or raises (A3): whatever it does, and wherever in
+                # the transfer it is called, no energy may have been created when transfer_to returns or raises
+                for obj_ in (st, peer):
+                    for fld in [k for k in obj_.fields if "state_change" in k or k == "on_state_change"]:
+                        obj_.fields[fld] = Unknown("on_state_change")
             w0, pw0 = worth(st.fields), worth(peer.fields)
             local = {r: [] for r in problems}
             try:
                 ret = it.call_fi(tr, [st, peer, amount, it.enum_member(ET, energy)], {})
             except PyRaise as e:
+                if listener and "on_state_change" in repr(e.exc):
+                    total = worth(st.fields).add(w0, -1).add(worth(peer.fields).add(pw0, -1))
+                    if not entails(it.facts, total.scale(-1)):
+                        local["C04-R4"].append(f"when a state-change listener raises during the transfer, energy has been created: Δ(sender) + Δ(receiver) = {total!r} is not provably ≤ 0")
+                    return local
                 local["C04-R5"].append(f"raises {e.exc!r}")
                 return local
             for who, obj_, ss in (("sender", st, s), ("receiver", peer, ps)):
@@ -234,7 +245,7 @@ def run(p, led, tier):
             for r, lst in local.items():
                 problems[r].extend(lst)
         for r in problems:
-            key = f"ATP_Store.transfer_to ▸ currency={energy} ▸ {r}"
+            key = f"ATP_Store.transfer_to ▸ currency={energy}{' ▸ with state-change listeners that may raise' if listener else ''} ▸ {r}"
             if problems[r]:
                 led.fail(r, key, where(tr, tr.node), f"{len(problems[r])} of {npaths[0]} path(s): {sorted(set(problems[r]))[0]}",
                          witness="transfer ATP into a store that is in debt: the debt is paid *and* the same energy is handed back to the sender" if r == "C04-R4" else None)
